@@ -1,2 +1,252 @@
-(* Properties_C06.v -- statements only (placeholder while the proofs are being written) *)
-From LC Require Import FlattenDefs.
+(* Properties_C06.v -- C06 "Flattening yields an import-free model with the same meaning": statements only.
+   Model: FlattenDefs.v (transcription of Importer::flattenModel and what it calls, with the C06 fix commits applied).
+   Proofs: FlattenProofs.v, FlattenOwn.v.  Every theorem below is closed under the global context.
+
+   What is NOT proved (see the comments marked NOT PROVED and design_notes/C06.md):
+     - termination of the flattening loop on acyclic import graphs (flatten_terminates);
+     - that recordVariableEquivalences / generateEquivalenceMap record EVERY equivalence of the imported subtree
+       (the theorems about rebasing and applying start from the recorded map);
+     - preservation of the meaning of units that reference other non-standard units: the claim is FALSE for the code
+       (C06_units_meaning_refuted) and no sufficient condition beyond first-level units was proved. *)
+From Coq Require Import List String QArith Bool Arith.
+From LC Require Import Common NumDefs UnitsDefs FlattenDefs FlattenProofs FlattenOwn.
+Import ListNotations.
+Local Open Scope string_scope.
+Local Open Scope nat_scope.
+Local Open Scope list_scope.
+
+(* ------------------------------------------------------------------------------------------------ rebase_correct *)
+
+(* rebaseIndexStack replaces exactly the origin prefix by the destination prefix ... *)
+Theorem C06_rebase_correct : forall origin rest dest, rebase_stack (origin ++ rest) origin dest = dest ++ rest.
+Proof. exact FlattenProofs.rebase_stack_prefix. Qed.
+Print Assumptions C06_rebase_correct.
+
+(* ... and a stack that is not under the origin is cleared (the code does not keep it: such targets leave the map) *)
+Theorem C06_rebase_outside_cleared : forall s origin dest, (forall rest, s <> origin ++ rest) -> rebase_stack s origin dest = [].
+Proof. exact FlattenProofs.rebase_stack_outside. Qed.
+Print Assumptions C06_rebase_outside_cleared.
+
+(* a target = component stack ++ [variable index]: only the component part decides (the reason for the pop_back in
+   rebaseEquivalenceMap: variable j of the origin's PARENT would otherwise look like child j of the origin) *)
+Theorem C06_rebase_target_inside : forall origin rest v dest, dest <> [] ->
+  rebase_target (origin ++ rest ++ [v]) origin dest = Some (dest ++ rest ++ [v]).
+Proof. exact FlattenProofs.rebase_target_inside. Qed.
+Print Assumptions C06_rebase_target_inside.
+
+Theorem C06_rebase_target_outside : forall cstack v origin dest, (forall rest, cstack <> origin ++ rest) ->
+  rebase_target (cstack ++ [v]) origin dest = None.
+Proof. exact FlattenProofs.rebase_target_outside. Qed.
+Print Assumptions C06_rebase_target_outside.
+
+Example C06_rebase_parent_variable_not_captured :
+  (* origin = component [0;1]; the target is variable 1 of component [0]: not under the origin *)
+  rebase_target [0; 1] [0; 1] [5] = None /\ rebase_target [0; 1; 2] [0; 1] [5] = Some [5; 2].
+Proof. split; reflexivity. Qed.
+Print Assumptions C06_rebase_parent_variable_not_captured.
+
+(* rebaseEquivalenceMap: every entry of the rebased map is the image of a recorded entry that has a target under the
+   origin, and (rebasing being injective on the recorded keys) every such recorded entry has its image *)
+Theorem C06_rebase_map_sound : forall m origin dest k2 ts2, In (k2, ts2) (rebase_map m origin dest) ->
+  exists k ts, In (k, ts) m /\ k2 = rebase_stack k origin dest /\ ts2 = rebase_targets ts origin dest /\ ts2 <> [].
+Proof. exact FlattenProofs.rebase_map_sound. Qed.
+Print Assumptions C06_rebase_map_sound.
+
+Theorem C06_rebase_map_complete : forall m origin dest,
+  NoDup (map (fun kv => rebase_stack (fst kv) origin dest) m) ->
+  forall k ts, In (k, ts) m -> rebase_targets ts origin dest <> [] ->
+  In (rebase_stack k origin dest, rebase_targets ts origin dest) (rebase_map m origin dest).
+Proof. exact FlattenProofs.rebase_map_complete. Qed.
+Print Assumptions C06_rebase_map_complete.
+
+Theorem C06_rebase_targets_exact : forall ts origin dest t2, In t2 (rebase_targets ts origin dest) <->
+  exists t, In t ts /\ rebase_target t origin dest = Some t2.
+Proof. exact FlattenProofs.rebase_targets_in. Qed.
+Print Assumptions C06_rebase_targets_exact.
+
+(* ------------------------------------------------------------------------------------------------ apply_generate_id *)
+
+(* applyEquivalenceMapToModel on the rebased map: every recorded equivalence between two variables of the imported
+   component's encapsulation tree is an equivalence of the corresponding variables (same relative stacks) of the
+   destination, provided the destination has variables there (structurally identical tree) ... *)
+Theorem C06_apply_rebased_complete : forall cs em origin dest eqs eqs',
+  dest <> [] ->
+  NoDup (map (fun kv => rebase_stack (fst kv) origin dest) em) ->
+  apply_map cs (rebase_map em origin dest) eqs = FOk eqs' ->
+  forall k ts rk rt i v1 v2,
+    In (k, ts) em -> In (origin ++ rt ++ [i]) ts -> k = origin ++ rk ->
+    var_located_at cs (dest ++ rk) = LVar v1 -> var_located_at cs (dest ++ rt ++ [i]) = LVar v2 -> v_oid v1 <> v_oid v2 ->
+    has_pair eqs' (v_oid v1) (v_oid v2).
+Proof. exact FlattenProofs.apply_rebased_complete. Qed.
+Print Assumptions C06_apply_rebased_complete.
+
+(* ... nothing that was equivalent stops being so, and nothing else becomes equivalent *)
+Theorem C06_apply_rebased_sound : forall cs em origin dest eqs eqs',
+  apply_map cs (rebase_map em origin dest) eqs = FOk eqs' ->
+  (forall x y, has_pair eqs x y -> has_pair eqs' x y) /\
+  forall x y, has_pair eqs' x y -> has_pair eqs x y \/
+    exists k ts t t2 v1 v2, In (k, ts) em /\ In t ts /\ rebase_target t origin dest = Some t2 /\
+      var_located_at cs (rebase_stack k origin dest) = LVar v1 /\ var_located_at cs t2 = LVar v2 /\
+      oids_pair_eq x y (v_oid v1) (v_oid v2).
+Proof. exact FlattenProofs.apply_rebased_sound. Qed.
+Print Assumptions C06_apply_rebased_sound.
+
+(* the map can only fail to apply when a stack does not lead to a component *)
+Theorem C06_apply_total : forall cs l eqs,
+  (forall k t, In (k, t) l -> var_located_at cs k <> LCrash /\ var_located_at cs t <> LCrash) ->
+  exists eqs', fold_left (apply_step cs None) l (FOk eqs) = FOk eqs'.
+Proof. exact FlattenProofs.apply_pairs_total. Qed.
+Print Assumptions C06_apply_total.
+
+(* ids.  copyRebasedEquivalenceIds (the id pass of Model::clone, b1322b2; for flattenComponent a CANDIDATE repair that
+   is not in the code, flag fx_ids): every equivalence afterwards is an old one or carries the ids the source model
+   stores for a recorded pair located at the same two variables *)
+Theorem C06_apply_generate_id_partial : forall src origin dest cs em eqs eqs',
+  copy_ids src origin dest cs em eqs = FOk eqs' ->
+  forall e, In e eqs' -> ids_from src origin dest cs (em_pairs em) eqs e.
+Proof. exact FlattenProofs.copy_ids_result. Qed.
+Print Assumptions C06_apply_generate_id_partial.
+
+(* the code as it is re-creates the equivalences of an imported component WITHOUT their ids (DESIGN row 36) *)
+Theorem C06_apply_generate_id_refuted :
+  exists flat st, flatten_model 10 50 flat_current_fixes [ids_lib] ids_origin 100 = FOk (flat, st) /\
+    List.length (m_eqs flat) = 2 /\ forall e, In e (m_eqs flat) -> e_map e = "" /\ e_conn e = "".
+Proof. exact FlattenProofs.flatten_ids_refuted. Qed.
+Print Assumptions C06_apply_generate_id_refuted.
+
+Theorem C06_apply_generate_id_repaired :
+  exists flat st, flatten_model 10 50 flat_all_fixed [ids_lib] ids_origin 100 = FOk (flat, st) /\
+    map (fun e => (e_map e, e_conn e)) (m_eqs flat) = [("map0", "conn0"); ("map1", "conn1")].
+Proof. exact FlattenProofs.flatten_ids_repaired. Qed.
+Print Assumptions C06_apply_generate_id_repaired.
+
+(* NOT PROVED: forall imported components, record_comp lists every equivalence between two variables of the component's
+   encapsulation tree with the index stacks at which var_located_at finds them (the traversal lemma; C11 proved its
+   counterpart for Model::clone over CloneDefs.v, C11_model_clone_equivalences_internal). *)
+
+(* ------------------------------------------------------------------------------------------------ declash_unique *)
+
+(* the search for a free name always ends within length(used) + 1 candidates *)
+Theorem C06_free_name_total : forall used orig, exists c, free_name used orig = Some c /\ ~ In c used.
+Proof. exact FlattenProofs.free_name_total. Qed.
+Print Assumptions C06_free_name_total.
+
+(* after the newComponentNames loop (7acb380): it ends; the new names are pairwise distinct; none is a name of the
+   importing model, of the imported hierarchy or of the placeholder's children; only clashing names are renamed, to name_k *)
+Theorem C06_declash_unique : forall fx compNames ck pk, fx_clash fx = true ->
+  exists ck' pk' done, declash fx compNames ck pk = FOk (ck', pk', done)
+    /\ NoDup (map snd done)
+    /\ forall o n, In (o, n) done ->
+         In o compNames /\ ~ In n compNames /\ ~ In n (comps_names ck) /\ ~ In n (comps_names pk) /\ exists k, n = candidate o k.
+Proof. exact FlattenProofs.declash_unique. Qed.
+Print Assumptions C06_declash_unique.
+
+(* the loop as it was: two imported components get the same name *)
+Theorem C06_declash_unique_refuted :
+  exists compNames ck, match declash flat_unfixed compNames ck [] with
+                       | FOk (ck', _, _) => ~ NoDup (comps_names ck')
+                       | _ => True
+                       end.
+Proof. exact FlattenProofs.declash_unique_refuted. Qed.
+Print Assumptions C06_declash_unique_refuted.
+
+(* NOT PROVED: the tree-level corollary "the component names of the flat model are pairwise distinct" (needs the effect
+   of rename_first_in on the pre-order list of names); the statement above is about the names the loop hands out. *)
+
+(* ------------------------------------------------------------------------------------------------ units *)
+
+(* transferUnitsRenamingIfRequired: a units is re-used exactly when the target has an equivalent one (the first, and
+   nothing is added); otherwise it is appended under a name no units of the target has (its own, else name_k);
+   changedNames says which *)
+Theorem C06_units_transfer_reuse_or_fresh : forall fuel fx libs orphan u s s' moved changed fname,
+  transfer fuel fx libs orphan u s = FOk (s', moved, changed, fname) ->
+  let home := if orphan then [u] else us_S s in
+  (moved = false /\ us_T s' = us_T s /\ us_S s' = us_S s /\ fname = u_name u /\
+   exists t, In t (us_T s) /\ units_equivalent libs [us_T s; home] 0 (u_name t) 1 (u_name u) = FOk true /\
+     ((u_name t = u_name u /\ changed = []) \/ (u_name t <> u_name u /\ changed = [(u_name u, u_name t)])))
+  \/
+  (moved = true /\
+   (forall t, In t (us_T s) -> units_equivalent libs [us_T s; home] 0 (u_name t) 1 (u_name u) = FOk false) /\
+   exists T1 u', grows (us_T s) T1 /\ us_T s' = T1 ++ [u'] /\ u_name u' = fname /\ u_imp u' = u_imp u /\
+     ~ In fname (map u_name T1) /\
+     ((fname = u_name u /\ changed = []) \/
+      (fname <> u_name u /\ In (u_name u) (map u_name T1) /\ changed = [(u_name u, fname)] /\ exists k, fname = candidate (u_name u) k))).
+Proof. exact FlattenProofs.transfer_reuse_or_fresh. Qed.
+Print Assumptions C06_units_transfer_reuse_or_fresh.
+
+(* updateUnitsNameUsages (c2160f8): every reference to the old name -- units of variables and units of cn elements, at
+   every depth of the component -- is rewritten, and nothing else *)
+Theorem C06_units_usages_rewritten : forall fx old new c, fx_cndeep fx = true -> comp_math_ok c = true ->
+  comp_var_units (rename_usages fx old new true c) = map (subst_opt old (Some new)) (comp_var_units c) /\
+  comp_cn_units (rename_usages fx old new true c) = map (subst_name old new) (comp_cn_units c).
+Proof. exact FlattenProofs.rename_usages_consistent. Qed.
+Print Assumptions C06_units_usages_rewritten.
+
+Theorem C06_units_usages_rewritten_refuted :
+  exists old new c, comp_math_ok c = true /\
+    comp_cn_units (rename_usages flat_unfixed old new true c) <> map (subst_name old new) (comp_cn_units c).
+Proof. exact FlattenProofs.rename_usages_consistent_refuted. Qed.
+Print Assumptions C06_units_usages_rewritten_refuted.
+
+(* units_dedup_preserves_equivalence_classes, the part that holds: for a units over standard units only (with valid
+   prefixes, not a user-defined base unit) the name its usages carry after the transfer denotes, in the target model,
+   units equivalent (Units::equivalent, C08's model) to the original in its own model *)
+Theorem C06_units_meaning_partial : forall fuel fx libs orphan u s s' moved changed fname,
+  transfer fuel fx libs orphan u s = FOk (s', moved, changed, fname) ->
+  u_imp u = None -> std_only (u_defs u) ->
+  (orphan = false -> find_units (u_name u) (us_S s) = Some u) ->
+  let home := if orphan then [u] else us_S s in
+  let usage_name := match changed with [(_, n)] => n | _ => u_name u end in
+  units_equivalent libs [us_T s'; home] 0 usage_name 1 (u_name u) = FOk true.
+Proof. exact FlattenProofs.transfer_preserves_meaning_partial. Qed.
+Print Assumptions C06_units_meaning_partial.
+
+Example C06_units_meaning_partial_nonvacuous :
+  std_only [wit_uc "metre" "milli" 1 0] /\ std_only [wit_uc "second" "" 2 0; wit_uc "metre" "" 1 (-3)].
+Proof.
+  split; (split; [discriminate|]); intros c Hc; cbn in Hc; repeat (destruct Hc as [Hc|Hc]; [subst c; split; [reflexivity | discriminate]|]); destruct Hc.
+Qed.
+Print Assumptions C06_units_meaning_partial_nonvacuous.
+
+(* ... and the claim at full strength is false: a units that references other units can come out meaning something else
+   (finding C06-units-name-capture; the witness is replayed on the library by checks/c06.py, case hand_kf_alias_capture) *)
+Theorem C06_units_meaning_refuted :
+  exists libs origin n0 flat st new_units,
+    flatten_model 10 50 flat_current_fixes libs origin n0 = FOk (flat, st) /\
+    units_of_var flat "c" "x" = Some new_units /\
+    units_equivalent libs [m_units flat; m_units wit_lib] 0 new_units 1 "u" = FOk false.
+Proof. exact FlattenProofs.units_meaning_refuted. Qed.
+Print Assumptions C06_units_meaning_refuted.
+
+(* ------------------------------------------------------------------------------------------------ flatten_no_imports *)
+
+(* whenever the model of flattenModel returns, no units and no component (at any depth) of the result is an import *)
+Theorem C06_flatten_no_imports : forall rounds fuel fx libs m n0 m' st,
+  flatten_model rounds fuel fx libs m n0 = FOk (m', st) ->
+  (forall u, In u (m_units m') -> u_imp u = None) /\ (forall c, In c (m_comps m') -> comp_import_free c).
+Proof. exact FlattenProofs.flatten_no_imports. Qed.
+Print Assumptions C06_flatten_no_imports.
+
+(* ------------------------------------------------------------------------------------------------ flatten_leaves_inputs *)
+
+(* identity-tag argument: every object the model modifies carries the tag of a clone made during flattening; the single
+   exception is the dummy variable that indexStackOf(importedComponent) adds to the imported component of the LIBRARY
+   model and removes again (two log entries in a row).  The model given to flattenModel is never written. *)
+Theorem C06_flatten_leaves_inputs : forall rounds fuel fx libs m n0 m' st, libs_tagged libs ->
+  flatten_model rounds fuel fx libs m n0 = FOk (m', st) -> wlog_ok (wlog st) = true.
+Proof. exact FlattenOwn.flatten_leaves_inputs. Qed.
+Print Assumptions C06_flatten_leaves_inputs.
+
+Example C06_flatten_leaves_inputs_nonvacuous :
+  exists libs m st m', flatten_model 10 50 flat_current_fixes libs m 100 = FOk (m', st) /\ wlog st <> [] /\ In (OLib 0) (wlog st).
+Proof. exact FlattenOwn.flatten_log_nonempty. Qed.
+Print Assumptions C06_flatten_leaves_inputs_nonvacuous.
+
+(* ------------------------------------------------------------------------------------------------ flatten_terminates *)
+
+(* NOT PROVED: flatten_terminates -- "on an acyclic import graph, rounds = number of import levels and fuel = number of
+   import nodes reachable suffice: flatten_model does not return FFuel".  What there is:
+     - C06_flatten_no_imports: a returned model is import-free (fuel exhaustion is a separate outcome, FFuel, never a model);
+     - the correspondence run: on every generated acyclic graph the model returns with rounds <= 40, fuel <= 400 whenever
+       the library returns, and answers FFuel exactly where the library recurses without end (units cycles closed by the
+       renaming, finding C06-units-name-capture). *)
